@@ -7,6 +7,7 @@ branch; the version suffix is kept; the CTE exemption compares whole names.
 NOT decided: that the right step is emitted for every query shape; table discovery completeness is C13's verdict.
 """
 import ast
+import itertools
 
 from ..source import AnalysisError, norm, dotted, const_str, walk_no_nested
 from ..cfg import Flow, class_named, function_named
@@ -499,51 +500,9 @@ def run(ctx):
     ctx.setcount('lookups', nlook)
     ctx.setcount('name_comparisons', ncmp)
     ctx.setcount('fetch_step_sites', nstep)
-    # C. resolvers --------------------------------------------------------------------------------------------------------
-    resolvers = [('QueryPlanner.resolve_database_table', QP), ('PlanJoinTablesQuery.resolve_table', PJ)]
-    for key, file in resolvers:
-        u = units.get(key)
-        ctx.need(u is not None, f'resolver {key} not found')
-        pops = [n for n in walk_no_nested(u.fn) if isinstance(n, ast.Call) and isinstance(n.func, ast.Attribute) and n.func.attr == 'pop'
-                and n.args and isinstance(n.args[0], ast.Constant) and n.args[0].value == 0]
-        ctx.need(len(pops) == 1, f'{key}: expected exactly one parts.pop(0), found {len(pops)}')
-        pop = pops[0]
-        parts_txt = norm(pop.func.value)
-        gs = guards_of(pop, u.fn)
-        has_len = any(pol and is_len_gt1(t, parts_txt) for t, pol in gs)
-        st = an.state_at(u, pop) or {}
-        member = [t for t, pol in gs if pol and isinstance(t, ast.Compare) and isinstance(t.ops[0], ast.In) and is_catalog(t.comparators[0]) == 'databases']
-        ctx.ob('C10.resolver', f'{key}:len-guard', has_len,
-               f'{key}: the first name part is removed without requiring len({parts_txt}) > 1: a one-part table name that equals a database '
-               f'name loses its only part (and the sibling resolver decides differently)', file=file, line=pop.lineno,
-               witness='select * from files f join int1.t on ...')
-        def from_first_part(e):
-            if isinstance(e, ast.Name):
-                defs = [n.value for n in walk_no_nested(u.fn) if isinstance(n, ast.Assign) and any(isinstance(t, ast.Name) and t.id == e.id for t in n.targets)]
-                return bool(defs) and all(f'{parts_txt}[0]' in norm(d) for d in defs)
-            return f'{parts_txt}[0]' in norm(e)
-        ctx.ob('C10.resolver', f'{key}:membership', bool(member) and all(an.lowered(t.left, st, u) and from_first_part(t.left) for t in member),
-               f'{key}: the first part is removed without a case-normalised membership test of {parts_txt}[0] in the databases', file=file, line=pop.lineno)
-        # the popped name is what the table is routed to
-        par = pop._parent
-        val = par if isinstance(par, ast.Attribute) else pop
-        lowered_pop = isinstance(par, ast.Attribute) and par.attr == 'lower'
-        ctx.ob('C10.resolver', f'{key}:popped-lowered', lowered_pop,
-               f'{key}: the removed qualifier is used as integration name as written (`{norm(pop)}` without .lower())', file=file, line=pop.lineno)
-        # default: the variable receiving the pop is initialised from default_namespace
-        asg = pop
-        while asg is not None and not isinstance(asg, ast.Assign):
-            asg = getattr(asg, '_parent', None)
-        ctx.need(asg is not None and isinstance(asg.targets[0], ast.Name), f'{key}: popped qualifier is not assigned to a variable')
-        var = asg.targets[0].id
-        others = [n for n in walk_no_nested(u.fn) if isinstance(n, ast.Assign) and any(isinstance(t, ast.Name) and t.id == var for t in n.targets) and n is not asg]
-        ctx.ob('C10.resolver', f'{key}:default-namespace', bool(others) and all(is_ns_attr(n.value) and n.value.attr == 'default_namespace' for n in others),
-               f'{key}: when no database matches, the table must go to the default namespace; `{var}` is also set from '
-               f'{[norm(n.value) for n in others if not is_ns_attr(n.value)]}', file=file, line=asg.lineno)
-        raises = [n for n in walk_no_nested(u.fn) if isinstance(n, ast.Raise) and 'PlanningException' in norm(n)
-                  and any(f'{var} is None' in norm(t) for t, pol in guards_of(n, u.fn) if pol)]
-        ctx.ob('C10.resolver', f'{key}:no-namespace-raises', bool(raises),
-               f'{key}: no PlanningException when neither a database nor a default namespace resolves the name', file=file, line=u.fn.lineno)
+    # C. resolvers: both are interpreted on name shapes x default namespaces -----------------------------------------------------------------
+    for label, ok, msg, file, line in resolver_table(ctx):
+        ctx.ob('C10.resolver', label, ok, msg, file=file, line=line, witness='select * from INT1.tbl1 a join files f on ...')
     # D. qualifier strip: truth table of prepare_integration_select ------------------------------------------------------------------------
     table = rewrite_table(ctx)
     ctx.setcount('rewrite_rows', len(table))
@@ -652,6 +611,49 @@ def model_resolution_table(ctx):
                     f'[{label}] get_predictor answers {got}, expected {want}: a name is a model exactly when its qualifier (the default namespace for a bare name) plus '
                     f'name is in the model catalog, the version suffix is kept, names of tables inside a database (database.schema.table) are tables, and the catalog is '
                     f'not modified', gp.lineno))
+    return out
+
+
+def resolver_table(ctx):
+    """QueryPlanner.resolve_database_table and PlanJoinTablesQuery.resolve_table interpreted (sa/interp.py) on name shapes x default namespaces: the first part is
+    the database exactly when the name has more than one part and that part, in any letter case, is a database; the database is reported lower-cased; every other
+    name goes to the default namespace; without one the resolver raises PlanningException; the reference of the query is left as it was.
+    -> [(label, ok, message, file, line)]"""
+    from ..interp import Interp, Obj, Raised, Env
+    dbs = ['int1', 'int2', 'mindsdb', 'files']
+    shapes = [['t'], ['int1', 't'], ['INT1', 't'], ['Int1', 'T1'], ['int1'], ['FILES'], ['unknown', 't'], ['int1', 'sch', 't'], ['Int2', 'Sch', 'T'], ['mindsdb', 't'],
+              ['t', 'int1'], ['sch', 'int1', 't']]
+    out = []
+    for key, file, cls, meth in (('QueryPlanner.resolve_database_table', QP, 'QueryPlanner', 'resolve_database_table'),
+                                 ('PlanJoinTablesQuery.resolve_table', PJ, 'PlanJoinTablesQuery', 'resolve_table')):
+        c = class_named(ctx.src.tree(file), cls)
+        fn = function_named(c, meth) if c is not None else None
+        ctx.need(fn is not None, f'resolver {key} not found')
+        for parts, (default_ns, ints), with_alias in itertools.product(shapes, (('mindsdb', dbs), ('int2', dbs), (None, dbs), (None, ['int1'])), (False, True)):
+            planner = Obj('QueryPlanner', databases=list(dbs), default_namespace=default_ns, integrations={d: {} for d in ints}, projects=['mindsdb'],
+                          predictor_namespace='mindsdb')
+            self_ = planner if cls == 'QueryPlanner' else Obj(cls, planner=planner)
+            alias = Obj('Identifier', parts=['al'], alias=None) if with_alias else None
+            node = Obj('Identifier', parts=list(parts), alias=alias)
+            stubs = {'copy.deepcopy': lambda it, x: x.clone(),
+                     'Identifier': lambda it, *a, **k: Obj('Identifier', parts=list(k.get('parts') or (a[0] if a else [])), alias=k.get('alias')),
+                     'TableInfo': lambda it, integration, table, aliases, **k: (integration, table)}
+            it = Interp.for_file(ctx.src, file, {'Identifier': set()}, stubs, also=('mindsdb_sql/parser/ast/base.py', 'mindsdb_sql/parser/ast/select/identifier.py'))
+            qualified = len(parts) > 1 and parts[0].lower() in dbs
+            want_db = parts[0].lower() if qualified else default_ns
+            want_parts = list(parts[1:]) if qualified else list(parts)
+            label = f'{key}:{".".join(parts)}{" AS al" if with_alias else ""} (default namespace {default_ns}{", one integration" if len(ints) == 1 else ""})'
+            try:
+                res = it.call_function(fn, [self_, node], {}, Env())
+                got = (res[0], list(res[1].parts)) if isinstance(res, tuple) and len(res) == 2 and isinstance(res[1], Obj) else repr(res)
+            except Raised as r:
+                got = f'raises {r.exc_name}'
+            want = 'raises PlanningException' if want_db is None else (want_db, want_parts)
+            ok = got == want and node.parts == list(parts)
+            out.append((label, ok,
+                        f'[{label}] resolves to {got}, expected {want} with the reference of the query unchanged: the first part names the database exactly when the '
+                        f'name has more than one part and that part, in any letter case, is a known database (reported lower-cased); otherwise the default namespace; '
+                        f'PlanningException when there is none', file, fn.lineno))
     return out
 
 
